@@ -227,6 +227,34 @@ func (s *TieredCompactionStrategy) CompactRange(minKey, maxKey []byte) error {
 		}
 	}
 
+	// The output goes below every existing level, so a file that overlaps one of the
+	// selected files must not be left behind: it would come to lie above - and
+	// shadow - newer data of that file. Extend the selection until it is closed.
+	selected := make(map[*SSTableInfo]bool)
+	for _, files := range task.InputFiles {
+		for _, file := range files {
+			selected[file] = true
+		}
+	}
+	for extended := len(selected) > 0; extended; {
+		extended = false
+		for level := 0; level <= maxLevel; level++ {
+			for _, file := range s.levels[level] {
+				if selected[file] {
+					continue
+				}
+				for other := range selected {
+					if file.Overlaps(other) {
+						selected[file] = true
+						task.InputFiles[level] = append(task.InputFiles[level], file)
+						extended = true
+						break
+					}
+				}
+			}
+		}
+	}
+
 	// If no files overlap with the range, no compaction needed
 	totalInputFiles := 0
 	for _, files := range task.InputFiles {
